@@ -170,6 +170,25 @@ func checkC12(c *core.Ctx) {
 		}
 	}
 	add("info key conv/C/x", []string{"info", "key", "conv", "--key", "C", "-c", "x"}, nil, false, true)
+	// user dictionaries: a chord taking over an existing display symbol, two user chords sharing a display,
+	// attributes redefined - resolution must not depend on map order
+	{
+		af := c.Scratch.File("c12-attr.yml", attrsYAML([]userAttr{{Name: "Zq4", Degree: "4"}, {Name: "Zq7", Degree: "b7"}, {Name: "Major13", Degree: "13"}}))
+		cf := c.Scratch.File("c12-chord.yml", chordsYAML([]userChord{
+			{Name: "QuartalStack", Display: "m7", Attrs: []string{"Perfect1", "Zq4", "Zq7"}},
+			{Name: "ZfirstX", Display: "zx", Attrs: []string{"Perfect1", "Zq4"}},
+			{Name: "ZsecondX", Display: "zx", Attrs: []string{"Perfect1", "Zq7"}},
+			{Name: "Zchild", Display: "zch", Extends: "zx", Attrs: []string{"Major13"}},
+		}))
+		doc := []byte("- chord: {degree: \"1\", name: \"m7\"}\n  values: [1]\n- chord: {degree: \"5\", name: \"zx\"}\n  values: [1]\n- chord: {degree: \"4\", name: \"zch\"}\n  values: [1]\n- chord: {degree: \"2\", name: \"MinorSeventh\"}\n  values: [1]\n")
+		add("write/user-dict", []string{"write", "--chord", cf, "--attr", af}, doc, true, true)
+		add("write event/user-dict", []string{"write", "event", "--chord", cf, "--attr", af}, doc, true, true)
+		add("write parse/user-dict", []string{"write", "parse", "--chord", cf, "--attr", af}, doc, true, true)
+		add("info chord describe/user-dict m7", []string{"info", "chord", "describe", "-t", "Cm7", "--chord", cf, "--attr", af}, nil, false, true)
+		add("info chord describe/user-dict zx", []string{"info", "chord", "describe", "-t", "Czx", "--chord", cf, "--attr", af}, nil, false, true)
+		add("info chord list/user-dict", []string{"info", "chord", "list", "--chord", cf, "--attr", af}, nil, false, true)
+		add("info attr list/user-dict", []string{"info", "attr", "list", "--attr", af}, nil, false, true)
+	}
 	c.Extra("classes", len(classes))
 
 	reps := c.N(8, 40)
